@@ -18,7 +18,7 @@ func init() {
 		Explanation: "(R1) live update => config record: for every mutator of live state (routers, single routes, clusters, hosts, cluster removal, cluster-manager TLS, listeners) every path that performs the live store and returns success also calls the matching configmanager recorder with the very value made live; " +
 			"(R2) build aside, swap once: RoutersWrapper.routers/routersConfig are written together in one critical section and read under the lock, the new route table is built before the lock is taken; the effective-config maps are touched only with configLock held, writes under the write lock; " +
 			"(R3) no last-writer-wins loop: a replace-semantics update (TriggerClusterHostUpdate / UpdateClusterHosts / AddOrUpdateRouters) must not sit in a loop whose iterations share the key while the value is produced inside the loop; " +
-			"(R4) removal really removes: the live entry is deleted and the removal recorded for the same name; RemoveAllRoutes clears both the route list and its index. (R5) every exported configmanager.Set* recorder writes the value it was given into the model on every path; only a nil parameter, a missing key or a whole-value reflect.DeepEqual may skip it. (R6) in UpdateCluster no call through the update handler receives the new cluster after clustersMap.Store made it visible, and the stored object is the one built from the new configuration. (R7) NewRouters appends every configured virtual host (no path around the append inside the loop over routerConfig.VirtualHosts) and hands generateHostWithPortConfig the range index of that loop. (R1 recorded-hosts) every []v2.Host passed from pkg/upstream/cluster to pkg/configmanager is built from host.Config() of the live set and does not derive from a parameter. (R8) in every update function that returns an error no CFG path leads from a configmanager.Set* call to an error exit and no recorder is deferred ahead of one. (R9) for every sort.Search whose predicate reads a slice variable a sort of that variable dominates the search, and no element store, append or replacement of the variable can reach the search without another sort.",
+			"(R4) removal really removes: the live entry is deleted and the removal recorded for the same name; RemoveAllRoutes clears both the route list and its index. (R5) every exported configmanager.Set* recorder writes the value it was given into the model on every path; only a nil parameter, a missing key or a whole-value reflect.DeepEqual may skip it. (R6) in UpdateCluster no call through the update handler receives the new cluster after clustersMap.Store made it visible, and the stored object is the one built from the new configuration. (R7) NewRouters appends every configured virtual host (no path around the append inside the loop over routerConfig.VirtualHosts) and hands generateHostWithPortConfig the range index of that loop. (R1 recorded-hosts) every []v2.Host passed from pkg/upstream/cluster to pkg/configmanager is built from host.Config() of the live set and does not derive from a parameter. (R8) in every update function that returns an error no CFG path leads from a configmanager.Set* call to an error exit and no recorder is deferred ahead of one. (R9) for every sort.Search whose predicate reads a slice variable a sort of that variable dominates the search, and no element store, append or replacement of the variable can reach the search without another sort. (R10) setFinalHost skips addresses it has seen; in AppendSimpleHostHandler every append of NewSimpleHost(hostConfigs[i]) precedes the Range over the existing hosts and none follows it.",
 		Run: runC12,
 	})
 }
@@ -81,6 +81,7 @@ func runC12(c *Ctx) {
 	c.Rule("C12.R4", "removal deletes the live entry and records the removal for the same name", 3)
 	c.Rule("C12.R5", "recorders store what they are given on every path (skips only for nil, missing key, DeepEqual)", 7)
 	c.Rule("C12.R6", "a new cluster is published in the live registry only after the update handler filled it", 2)
+	c.Rule("C12.R10", "appending a host that is already known updates it (appended hosts precede existing ones; de-duplication keeps the first)", 2)
 	c.Rule("C12.R9", "a binary search in an update path runs on a slice that is still sorted (removed objects are really found)", 1)
 	c.Rule("C12.R8", "a rejected update leaves the stored configuration alone: no recorder runs on a path that ends in an error", 4)
 	c.Rule("C12.R7", "live virtual-host positions equal configuration positions (no virtual host skipped; recorded index = config index)", 2)
@@ -422,6 +423,7 @@ func runC12(c *Ctx) {
 	c12IndexAligned(c)
 	c12RecordOnlyOnSuccess(c)
 	c12SearchOnSorted(c)
+	c12AppendLastWins(c)
 	recordedHostsReadBack(c, "C12.R1")
 
 	// R3
